@@ -370,7 +370,8 @@ def run_case(case):
                         ok = True
                         break
             chance = False
-            if not ok and fr != "tcp" and case["timing"] != "collide":
+            if not ok and fr != "tcp" and case["timing"] in ("garbage", "other", "flip") and answers \
+                    and len(raw) == len(answers[0]):
                 # a remainder of the right length that is NOT the real one but happens to carry a valid checksum (one in
                 # 65536 random remainders does): the same phenomenon as the constructed collisions
                 from sim import codec
